@@ -144,7 +144,7 @@ void runC12Api(const Opts& o, long idx, CaseLog& log) {
         for (int i = 0; i < 128; ++i) c.point("Q" + std::to_string(i));
         for (int i = 0; i < 128; ++i) c.analog("K" + std::to_string(i));
         for (int f = 0; f < 4; ++f) { ezc3d::DataNS::Frame fr; ezc3d::DataNS::Points3dNS::Points pts;
-            for (int i = 0; i < 128; ++i) { ezc3d::DataNS::Points3dNS::Point pt; pt.name("Q" + std::to_string(i)); size_t b = (size_t)f * 512 + (size_t)i * 4; pt.x(fv[b]); pt.y(fv[b + 1]); pt.z(fv[b + 2]); pt.residual(fv[b + 3]); pts.point(pt); }
+            for (int i = 0; i < 128; ++i) { ezc3d::DataNS::Points3dNS::Point pt; pt.name("Q" + std::to_string(i)); size_t b = (size_t)f * 512 + (size_t)i * 4; pt.x(fv[b + (size_t)((0 + f) % 4)]); pt.y(fv[b + (size_t)((1 + f) % 4)]); pt.z(fv[b + (size_t)((2 + f) % 4)]); pt.residual(fv[b + (size_t)((3 + f) % 4)]); pts.point(pt); }   // frame f rotates the components
             ezc3d::DataNS::AnalogsNS::Analogs an; ezc3d::DataNS::AnalogsNS::SubFrame sf;
             for (int i = 0; i < 128; ++i) { ezc3d::DataNS::AnalogsNS::Channel ch; ch.name("K" + std::to_string(i)); ch.data(fv[(size_t)f * 512 + (size_t)i * 4]); sf.channel(ch); }   // every 4th pattern of this frame's 512
             an.subframe(sf); fr.add(pts, an); c.frame(fr); }
@@ -166,7 +166,7 @@ void runC12Api(const Opts& o, long idx, CaseLog& log) {
         if (got.size() != fv.size()) bad = -1; else for (size_t i = 0; i < fv.size(); ++i) if (fbits(got[i]) != fb[i]) { if (!bad) { char t[64]; snprintf(t, sizeof t, "%08x -> %08x", fb[i], fbits(got[i])); log.viol("C12", "api/float_param_pattern", t); } ++bad; }
         for (int f = 0; f < 4; ++f) for (int i = 0; i < 128; ++i) { const ezc3d::DataNS::Points3dNS::Point& pt = l->data().frame((size_t)f).points().point((size_t)i); size_t b = (size_t)f * 512 + (size_t)i * 4; uint32_t g[4] = {fbits(pt.x()), fbits(pt.y()), fbits(pt.z()), fbits(pt.residual())};
             { uint32_t av = fbits(l->data().frame((size_t)f).analogs().subframe(0).channel((size_t)i).data()); ++checked; if (av != fb[b]) { if (!bad) { char t[64]; snprintf(t, sizeof t, "%08x -> %08x", fb[b], av); log.viol("C12", "api/analog_float_pattern", t); } ++bad; } }
-            for (int k = 0; k < 4; ++k) { ++checked; if (g[k] != fb[b + k]) { if (!bad) { char t[64]; snprintf(t, sizeof t, "%08x -> %08x (component %d)", fb[b + k], g[k], k); log.viol("C12", "api/point_float_pattern", t); } ++bad; } } } }
+            for (int k = 0; k < 4; ++k) { ++checked; if (g[k] != fb[b + (size_t)((k + f) % 4)]) { if (!bad) { char t[64]; snprintf(t, sizeof t, "%08x -> %08x (component %d)", fb[b + (size_t)((k + f) % 4)], g[k], k); log.viol("C12", "api/point_float_pattern", t); } ++bad; } } } }
     if (idx >= 4 && bad >= 0) for (int f = 0; f < 12; ++f) for (int i = 0; i < 128; ++i) { uint32_t want = fb[(size_t)(f / 3) * 512 + (size_t)i * 4 + 1 + (size_t)(f % 3)], av = fbits(l->data().frame((size_t)(4 + f)).analogs().subframe(0).channel((size_t)i).data()); ++checked;
         if (av != want) { if (!bad) { char t[64]; snprintf(t, sizeof t, "%08x -> %08x", want, av); log.viol("C12", "api/analog_float_pattern", t); } ++bad; } }
     if (bad == -1) log.viol("C12", "api/value_count", "number of values changed");
